@@ -39,6 +39,7 @@ def gen(rng):
     c = {'vals': [str(v) for v in vals], 'signed': signed, 'given': given, 'shape': 'scalar' if n == 1 and rng.random() < 0.7 else 'array',
          'carrier': rng.choice(['float', 'float', 'int'])}
     if rng.random() < 0.25: c['prelude'] = rng.choice([1, 3, 6])
+    if rng.random() < 0.3: c['objarr'] = True
     # NumPy carriers of a narrow dtype (values that the dtype holds exactly)
     if rng.random() < 0.3:
         import numpy as np
@@ -70,6 +71,9 @@ def run_cases(cases, res):
         allint = all(v.denominator == 1 for v in vals)
         nums = [int(v) if (c['carrier'] == 'int' and allint) else float(v) for v in vals]
         val = nums[0] if c['shape'] == 'scalar' else (np.array(nums) if rng_choice(c) else list(nums))
+        if c.get('objarr') and c['shape'] != 'scalar' and len(nums) >= 2 and len(nums) % 2 == 0 and vals[0].denominator == 1 and not c['carrier'].startswith('np:'):
+            # a 2-D OBJECT ndarray: a Python int first, Python floats elsewhere (the widest type decides how the values are read)
+            val = np.array([int(vals[0])] + [float(v) for v in vals[1:]] + [None], dtype=object)[:-1].reshape(2, -1)
         if c['carrier'].startswith('np:'):
             dt = np.dtype(c['carrier'][3:])
             val = dt.type(nums[0]) if c['shape'] == 'scalar' else np.array(nums, dtype=dt)
